@@ -155,6 +155,8 @@ def run(ctx):
                   "the polars registration does not delegate with its arguments forwarded", fi.where)
     wiring.flatten_order(ctx, "C17.b", m, "flattening:C-order")
     wiring.discarded_mask(ctx, "C17.b", m, floor=3)
+    wiring.lossy_preallocation(ctx, "C17.b", [con.functions[x] for x in ("extract_1d_array", "extract_weights", "extract_nd_array",
+                               "extract_and_concat_arrays")] + [m.func("_facade", x) for x in ("h2", "h3")], "extractors:columns-promoted")
 
     # ---- C17.c refusals ---------------------------------------------------------------------------------------------------
     ctx.rule("C17.c", "non-numeric dtypes and nulls raise before anything is returned", 4)
@@ -199,6 +201,23 @@ def run(ctx):
                  "h(data=<selected columns>, bins=bins, **kwargs) / data.physt.h1(bins, **kwargs)")
     returns_call("PhystSeries", "h1", lambda c: U(c.func) == "physt.h1" and U(c.args[0]) == "self._series" and fw(c, "bins"), "physt.h1(self._series, bins=bins, **kwargs)")
     returns_call("PhystFrame", "h", lambda c: U(c.func) in ("physt.h1", "physt.h2", "physt.h") and fw(c, "bins"), "physt.h1 / h2 / h(..., bins=bins, **kwargs)")
+
+    # the NaN policy (refuse / drop with the weights, per `dropna`) is the facade's: accessors hand the column(s) on untouched
+    NA_CALLS = {"notna", "dropna", "isna", "isnull", "notnull", "fillna", "drop_nulls", "fill_null", "is_null", "is_not_null", "isnan",
+                "drop_nans", "fill_nan", "nan_to_num"}
+    for cls_, meths in (("PhystSeriesAccessor", ("h1",)), ("PhystDataFrameAccessor", ("h1", "h2", "histogram")), ("PhystSeries", ("h1",)),
+                        ("PhystFrame", ("h",))):
+        k = m.classes.get(cls_)
+        if k is None:
+            continue
+        for meth in meths:
+            fi = k.methods.get(meth)
+            if fi is None:
+                continue
+            na = [U(c)[:60] for c in calls_in(fi.node) if isinstance(c.func, ast.Attribute) and c.func.attr in NA_CALLS]
+            ctx.check(not na, "C17.d", f"{cls_}.{meth}:no-own-na-filter", "no NA filtering in the accessor",
+                      f"{cls_}.{meth} filters missing values itself ({na[:2]}): the facade's dropna policy (refuse when dropna=False, drop the "
+                      "entry WITH its weight otherwise, NaN weights kept) is bypassed, unlike for the equivalent arrays", fi.where)
 
     # ---- C17.e converters -----------------------------------------------------------------------------------------------------
     ctx.rule("C17.e", "converters keep edges, closedness, contents, errors and under/overflow roles", 7)
@@ -259,3 +278,34 @@ def run(ctx):
     imp = dm.imports
     ctx.check(imp.get("original_h1") == ("physt._facade", "h1") and imp.get("original_hdd") == ("physt._facade", "histogramdd"), "C17.f", "dask:facades",
               "original_h1 / original_hdd are the plain facades", "the dask module no longer wraps physt's own facades", dm.relpath)
+
+    # ---- C17.g names carried by the container ---------------------------------------------------------------------------
+    ctx.rule("C17.g", "axis names carried by the inputs reach the histogram whenever the caller gave none", 4)
+    fac = m.module("_facade")
+    for fname, ex, kw_ in (("h1", "extract_axis_name", "axis_name"), ("h", "extract_axis_names", "axis_names")):
+        fi = fac.functions[fname]
+        ctx.saw(fi)
+        asg = [n for n in ast.walk(fi.node) if isinstance(n, ast.Assign) and U(n.targets[0]) == kw_ and isinstance(n.value, ast.Call)
+               and call_is(n.value, ex)]
+        okx = bool(asg) and U(asg[0].value.args[0]) == "data" and U(kwarg(asg[0].value, kw_)) == kw_
+        passed = any(U(kwarg(c, kw_)) == kw_ for c in calls_in(fi.node) if kwarg(c, kw_) is not None and not call_is(c, ex))
+        ctx.check(okx and passed, "C17.g", f"{fname}:{kw_}", f"{kw_} = {ex}(data, {kw_}={kw_}) handed to the histogram",
+                  f"{fname} does not resolve the axis name(s) through {ex}(data, {kw_}={kw_}) and pass them on", fi.where)
+    for fname in ("h2", "h3"):
+        fi = fac.functions[fname]
+        ctx.saw(fi)
+        n_paths, bad_paths = 0, []
+        for path in function_paths(fi.node):
+            if end_kind(path) != "return":
+                continue
+            cs = [(U(s_[1]), s_[2]) for s_ in path if s_[0] == "cond"]
+            if ("'axis_names' not in kwargs", True) not in cs:
+                continue
+            n_paths += 1
+            stores = [s_[1] for s_ in path if s_[0] == "stmt" and isinstance(s_[1], ast.Assign)
+                      and U(s_[1].targets[0]) == "kwargs['axis_names']"]
+            extra = [c for c, v in cs[cs.index(("'axis_names' not in kwargs", True)) + 1:] if "name" in c]
+            if not stores or extra:
+                bad_paths.append(f"no names stored when {[c for c, v in cs if v][-2:]}" if not stores else f"names stored only if `{extra[0]}`")
+        ctx.check(n_paths >= 1 and not bad_paths, "C17.g", f"{fname}:axis_names", f"{n_paths} path(s) without explicit names: the inputs' own "
+                  "names are stored for every column", "; ".join(sorted(set(bad_paths))[:2]) + " - a name carried by one input is dropped", fi.where)
